@@ -895,8 +895,10 @@ def check_c17(idx: Index, tier: str, res: Result) -> None:
     _DERIVED.update(derived)
     found = []
     for n in walk_no_nested(sweep.node):
-        if isinstance(n, ast.If):
-            for c in [x for x in ast.walk(n.test) if isinstance(x, ast.Compare) and len(x.ops) == 1]:
+        # the comparison decides an if directly, or is kept as a verdict (expired = now >= last + timeout ... if expired:)
+        holder = n.test if isinstance(n, ast.If) else (n.value if isinstance(n, ast.Assign) and len(n.targets) == 1 and isinstance(n.targets[0], ast.Name) else None)
+        if holder is not None:
+            for c in [x for x in ast.walk(holder) if isinstance(x, ast.Compare) and len(x.ops) == 1]:
                 acc: Dict[str, int] = {}
                 if _linear(c.left, kinds, 1, acc) and _linear(c.comparators[0], kinds, -1, acc) and "NOW" in acc and "LAST" in acc:
                     found.append((n, c, acc))
@@ -920,13 +922,19 @@ def check_c17(idx: Index, tier: str, res: Result) -> None:
         if node.kind == "iter" and label == "loop":
             return [(None, False, frozenset())]      # a new instance: nothing decided, nothing destroyed yet
         outcome, destroyed, flags = fact
-        if node.kind == "test" and node.ast is ifn.test and label in ("true", "false"):
+        if node.kind == "test" and isinstance(ifn, ast.If) and node.ast is ifn.test and label in ("true", "false"):
             outcome = label == "true"
         elif node.kind == "test" and label in ("true", "false"):
             # a verdict carried in a boolean local (expired = True ... if expired:) decides the branch it was set for
             for atom, truth in implied(node.ast, label == "true"):
                 if isinstance(atom, ast.Name) and (atom.id, not truth) in flags:
                     return []
+                if isinstance(atom, ast.Name) and (atom.id, "CMP") in flags:
+                    outcome = truth                  # the verdict holds the outcome of the expiry comparison itself
+                    flags = frozenset(x for x in flags if x[0] != atom.id) | {(atom.id, truth)}
+        if node.kind == "stmt" and label != "exc" and node.ast is ifn and isinstance(ifn, ast.Assign) and src(ifn.value) == src(cmp_):
+            flags = frozenset(x for x in flags if x[0] != ifn.targets[0].id) | {(ifn.targets[0].id, "CMP")}
+            return [(outcome, destroyed, flags)]
         if node.kind == "stmt" and label != "exc" and isinstance(node.ast, ast.Assign) and len(node.ast.targets) == 1 \
                 and isinstance(node.ast.targets[0], ast.Name):
             nm = node.ast.targets[0].id
